@@ -443,13 +443,46 @@ def part_c(ctx, tmp):
                 continue
             # the per-contribution dictionaries the program stores get output_size - 3
             from taurex.util.output import store_contributions
-            from taurex.binning import FluxBinner, SimpleBinner
+            from taurex.binning import FluxBinner, SimpleBinner, NativeBinner
             from taurex import OutputSize
             for named in (OutputSize.heavy, OutputSize.light, OutputSize.lighter):
                 bw = np.sort(np.array(rng.sample(list(np.linspace(float(r1[0][0]) + 1, float(r1[0][-1]) - 1, 30)), 3)))
-                binner = rng.choice([FluxBinner, SimpleBinner])(bw)
-                with np.errstate(all='ignore'):
-                    tree = store_contributions(binner, model, output_size=named - 3)
+                bk = rng.choice([FluxBinner, SimpleBinner, NativeBinner])
+                binner = bk() if bk is NativeBinner else bk(bw)
+                try:
+                    with np.errstate(all='ignore'):
+                        tree = store_contributions(binner, model, output_size=named - 3)
+                        _, per_c = model.model_contrib()
+                        _, per_k = model.model_full_contrib()
+                except Exception as e:
+                    import traceback
+                    ctx.violation('contribution-store-raises', 'store_contributions raised %r with a %s\n%s'
+                                  % (e, bk.__name__, traceback.format_exc()[-500:]), replay=rp)
+                    continue
+                # what was computed is what is stored: every contribution and every component of it, with its own spectrum
+                bad_c = None
+                if sorted(tree) != sorted(per_c):
+                    bad_c = 'stored contributions %r, modelled %r' % (sorted(tree), sorted(per_c))
+                for cn in per_c:
+                    if bad_c:
+                        break
+                    want = [(cn, '', per_c[cn][0])] + [(cn, nm, fl) for nm, fl, _, _ in per_k[cn]]
+                    for cn_, nm, fl in want:
+                        node = tree[cn_].get(nm) if nm else tree[cn_]
+                        if not isinstance(node, dict) or 'native_spectrum' not in node:
+                            bad_c = 'no native spectrum stored for %s/%s' % (cn_, nm)
+                        elif not np.allclose(node['native_spectrum'], fl, rtol=1e-12, atol=0, equal_nan=True):
+                            bad_c = 'stored native spectrum of %s/%s differs from the modelled one' % (cn_, nm)
+                        elif bk is not NativeBinner:
+                            with np.errstate(all='ignore'):
+                                wb = binner.bindown(np.array(r1[0]), np.array(fl))[1]
+                            if 'binned_spectrum' not in node or not np.allclose(node['binned_spectrum'], wb, rtol=1e-12, atol=0, equal_nan=True):
+                                bad_c = 'stored binned spectrum of %s/%s is not the binned modelled one' % (cn_, nm)
+                        if bad_c:
+                            break
+                if bad_c:
+                    ctx.violation('contribution-values', 'contributions stored with a %s: %s' % (bk.__name__, bad_c), replay=rp)
+                ctx.count('C-contribution-tree:' + bk.__name__)
                 found = []
 
                 def walk(dd, pfx):
@@ -462,7 +495,7 @@ def part_c(ctx, tmp):
                 want_b, want_n = int(named) - 3 > 1, int(named) - 3 > 3
                 if any(('binned_tau' in f_) != want_b for f_ in found if 'binned_tau' in f_) or \
                         any(('native_tau' in f_) != want_n for f_ in found if 'native_tau' in f_) or \
-                        (want_b and not any('binned_tau' in f_ for f_ in found)):
+                        (want_b and bk is not NativeBinner and not any('binned_tau' in f_ for f_ in found)):
                     ctx.violation('contribution-tau', 'contributions stored for output size %s hold optical depths %r; expected '
                                   'binned: %s, native: %s' % (named.name, found[:4], want_b, want_n), replay=rp)
             try:
